@@ -171,6 +171,22 @@ pub fn gen_program(r: &mut Rng, o: &ProgOpts) -> String {
     rules.join("\n")
 }
 
+/// two or three ground rules of one predicate that close a cycle at the ground level only
+/// (p(a) :- p(b). p(b) :- p(a).): a positive dependency of the predicate on itself although no
+/// single rule relates an atom to itself
+pub fn gen_ground_cycle(r: &mut Rng, o: &ProgOpts) -> String {
+    let cands: Vec<&(String, usize)> = o.preds.iter().filter(|(_, n)| *n >= 1).collect();
+    if cands.is_empty() {
+        return String::new();
+    }
+    let (p, n) = cands[r.upto(cands.len())];
+    let consts = ["a", "1", "2", "0"];
+    let k = 2 + r.upto(2);
+    let atom = |c: &str| -> String { format!("{p}({})", std::iter::once(c.to_string()).chain((1..*n).map(|_| "0".to_string())).collect::<Vec<_>>().join(",")) };
+    let start = r.upto(consts.len());
+    (0..k).map(|i| format!("{} :- {}.", atom(consts[(start + i) % consts.len()]), atom(consts[(start + (i + 1) % k) % consts.len()]))).collect::<Vec<_>>().join("\n")
+}
+
 // ------------------------------------------------------------------------------------------
 // interpretations
 
